@@ -9,7 +9,7 @@ LEVEL = dict(
               "`compressed.len() + k < content.len()` with k >= 19 and only when no Filter is present; decompress()/set_plain_content() "
               "remove every key decompressed_content() consults; filter dispatch table; PNG row filters have the index shape of the PNG "
               "specification (Sub/Up/Average/Paeth with left = Raw(x-bpp), above = Prior(x), upper-left = Prior(x-bpp)) and the "
-              "encoder/decoder siblings agree; Paeth tie-break order; LZW and ASCII85 spec constants",
+              "encoder/decoder siblings agree; Paeth tie-break order; LZW and ASCII85 spec constants; PNG frame row discipline (every emitted row is `current` after decode_row and is swapped into `previous` before the next row); predictor values reaching png::decode_frame are exactly 10..=15 (value-set analysis)",
     explanation="Decides: the structural conditions without which Length bookkeeping, never-longer compression, lossless "
                 "compress/decompress and spec-conformant predictors are impossible. Does not decide: numerical results of the "
                 "third-party inflate/LZW decoders, or of the row filters beyond their operand/operation shape.",
